@@ -45,6 +45,7 @@ class Repository(object):
         self.cmd_directory = self.tmp_directory
         self._remote_heads = defaultdict(set)
         self._remote_branches = dict()
+        self._cloned_heads = None
 
     def delete(self):
         def onerror_cb(func, path, excinfo):
@@ -97,6 +98,10 @@ class Repository(object):
         self.cmd('git remote add origin %s', self._url)
         # Update the list of remote branches (required if we use 'branch -r')
         self.cmd('git remote update origin')
+        # Remember which branches this clone started with: push_all() only
+        # propagates the deletion of those.
+        self._cloned_heads = set(self.cmd(
+            'git for-each-ref --format="%(refname)" refs/heads').split())
 
     def config(self, key, value):
         self.cmd('git config %s %s', key, value)
@@ -157,21 +162,14 @@ class Repository(object):
             if not prune:
                 self.cmd('git push --all --atomic')
                 return
-            # Only propagate the branch deletions that were made locally.
+            # Only propagate the branch deletions that were made locally,
+            # i.e. the branches this clone started with and no longer has.
             # `git push --prune` would also delete every branch that somebody
             # else created on the remote since this clone was taken.
-            fmt = '--format="%(refname)"'
-            local = set(self.cmd('git for-each-ref ' + fmt +
-                                 ' refs/heads').split())
-            tracked = self.cmd('git for-each-ref ' + fmt +
-                               ' refs/remotes/origin').split()
-            deleted = [
-                quote(':refs/heads/' + ref[len('refs/remotes/origin/'):])
-                for ref in tracked
-                if ref != 'refs/remotes/origin/HEAD' and
-                'refs/heads/' + ref[len('refs/remotes/origin/'):]
-                not in local
-            ]
+            local = set(self.cmd(
+                'git for-each-ref --format="%(refname)" refs/heads').split())
+            deleted = [quote(':' + ref) for ref in
+                       sorted((self._cloned_heads or set()) - local)]
             self.cmd("git push --atomic origin 'refs/heads/*:refs/heads/*' " +
                      ' '.join(deleted))
         except CommandError as err:
